@@ -209,14 +209,14 @@ def with_watchdog(seconds, f, *a):
 
 # ----------------------------------------------------------------------------------------------
 
-def random_cases(rng, count, tier, unlabelled_share=0.2, kmax=None, kinds=None):
+def random_cases(rng, count, tier, unlabelled_share=0.2, kmax=None, kinds=None, ns=None, patterns=None):
     kmax = kmax or {2: 6, 3: 5, 4: 4, 5: 3}
     cases = []
     pools = {}
     pool_size = 7 if tier == "quick" else 40
     while len(cases) < count:
-        n = rng.choice([2, 2, 3, 3, 3, 4, 5])
-        pattern = rng.choice(gen.PATTERNS)
+        n = rng.choice(ns or [2, 2, 3, 3, 3, 4, 5])
+        pattern = rng.choice(patterns or gen.PATTERNS)
         labelset = rng.choice(["abc", "words", "nums"])
         x = rng.random()
         unl = True if x < unlabelled_share / 2 else (0.35 if x < unlabelled_share else False)   # fully unlabelled / mixed / labelled
